@@ -15,14 +15,14 @@ git diff -- . ':(exclude)*_test.go' > /tmp/confirm_$name.diff
 echo "== build+suite with change (demo skipped)"
 go build ./... && go build -tags verif ./... || { echo BUILD-FAIL; exit 1; }
 suite_ok=1
-for i in 1 2 3; do go test -tags verif -count=1 -skip "$tests" ./... >/tmp/confirm_suite.txt 2>&1 || { suite_ok=0; tail -20 /tmp/confirm_suite.txt; }; done
+for i in 1 2 3; do go test -count=1 -skip "$tests" ./... >/tmp/confirm_suite.txt 2>&1 || { suite_ok=0; tail -20 /tmp/confirm_suite.txt; }; done
 echo "suite_ok=$suite_ok"
 echo "== demo with change (expect FAIL)"
-go test -tags verif -count=1 -run "$tests" $pkg >/tmp/confirm_demo_with.txt 2>&1; with=$?
+go test -count=1 -run "$tests" $pkg >/tmp/confirm_demo_with.txt 2>&1; with=$?
 tail -5 /tmp/confirm_demo_with.txt
 echo "== demo without change (expect PASS)"
 git stash push -q -- $(git diff --name-only -- . ':(exclude)*_test.go')
-go test -tags verif -count=1 -run "$tests" $pkg >/tmp/confirm_demo_without.txt 2>&1; without=$?
+go test -count=1 -run "$tests" $pkg >/tmp/confirm_demo_without.txt 2>&1; without=$?
 tail -3 /tmp/confirm_demo_without.txt
 git stash pop -q
 echo "with=$with without=$without"
